@@ -1,14 +1,24 @@
-/* c20_threads.c - C20: concurrent sessions sharing one server sslKeys_t, one client sslKeys_t, the global
- * session cache, the process PRNG and the CRL cache.
+/* c20_threads.c - C20: concurrent sessions sharing one server sslKeys_t (identities, CA list, session-ticket keys,
+ * ECDHE ephemeral-key cache), one client sslKeys_t, the global session cache, the process PRNG and the CRL cache.
  *
- * One process = one run: N worker threads x K operations, plus a ticket-key rotator thread and a CRL-cache
- * churn thread.  Every operation is logged in a per-thread buffer (no stdio, no shared monitor memory while
- * the threads run) with call/return stamps from one global counter.  The counter is a RELAXED atomic on
- * purpose: an acquire/release counter or a monitor mutex would add happens-before edges between all threads
- * at every operation boundary and hide exactly the races ThreadSanitizer is here to find.  On x86 the
- * locked xadd still gives a total real-time order of the stamps, which is all the history checker needs.
- * After join the main thread dumps the history as JSONL ("t":"op"); checks/c20.py does the sequential-
- * explainability check and the overlap statistics.  The real PRNG and clock are used (not wrapped). */
+ * One process = one run: N worker threads x K operations, plus a ticket-key rotator thread and a CRL-cache churn
+ * thread.  A worker operation is an in-memory client/server pair driven by that thread: full / session-id-resumed /
+ * RFC 5077 ticket-resumed / TLS 1.3 PSK-resumed handshake + data both ways + closure, the same with a record damaged
+ * in flight (fatal alert in the handshake or on the established session), an abandoned handshake, a credential reset,
+ * a direct chain validation against the shared CA list, a PRNG draw, or a handshake with a credential borrowed from
+ * another thread's logical client (so that one cache entry / ticket is resumed by several threads at once).
+ * Between any two library calls a per-thread seeded PRNG injects sched_yield() or a few microseconds of nanosleep().
+ *
+ * Every operation is logged in a per-thread buffer (no stdio, no shared monitor memory while the threads run) with
+ * call/return stamps from one global counter.  The counter is a RELAXED atomic on purpose: an acquire/release counter
+ * or a global monitor mutex would add happens-before edges between all threads at every operation boundary and hide
+ * exactly the races ThreadSanitizer is here to find.  On x86 the locked xadd still gives a total real-time order of the
+ * stamps, which is all the history checker needs.  The only harness mutexes are the per-cell locks of the credential
+ * board (publisher -> borrower of that cell).  After join the main thread dumps the history as JSONL ("t":"op");
+ * checks/c20.py does the sequential-explainability check and the overlap statistics.
+ * The real PRNG (/dev/urandom behind psGetPrngLocked) and the real clock are used: nothing is wrapped.
+ *
+ * usage: c20 --seed S --threads N --ops K --out file [--keys <repo>/testkeys] [--crl cls:file.der,...] [--empty 1] */
 #define _GNU_SOURCE
 #include "vf.h"
 #include "matrixssl/matrixsslApi.h"
